@@ -12,7 +12,7 @@ use rsjsonnet_lang::program::{Thunk, Value};
 use crate::json::Json;
 use crate::pgen::{Gen, GenCfg, Ty};
 use crate::prog::{AuditMode, Ctx, Out, Sched, SchedMode, World};
-use crate::reqs::{do_make_array, do_top, ops_from_json, ops_to_json, Exec, Fault, Op, Req, Resolved};
+use crate::reqs::{do_make_array, do_make_object, do_top, ops_from_json, ops_to_json, Exec, Fault, Op, Req, Resolved};
 use crate::rng::Rng;
 use crate::util::{bump, Violation};
 
@@ -232,7 +232,13 @@ pub fn gen_history_mode(seed: u64, with_faults: bool, session: bool) -> History 
             13 => Req::Call { thunk: h, pos: vec![o.below(16) as u32], named: vec![], keep: false },
             14 | 15 => Req::Manifest { value: h, multiline: o.chance(1, 2) },
             16 => Req::ToThunk { value: h },
-            17 => Req::MakeArray { values: vec![o.below(16) as u32] },
+            17 => {
+                if o.chance(1, 2) {
+                    Req::MakeArray { values: vec![o.below(16) as u32] }
+                } else {
+                    Req::MakeObject { values: vec![o.below(16) as u32, o.below(16) as u32] }
+                }
+            }
             18 | 19 => Req::Gc,
             20 => Req::DropThunk(h),
             21 => Req::DropValue(h),
@@ -423,6 +429,14 @@ impl<'p, 'h> Fresh<'p, 'h> {
                 let (o, v) = do_make_array(&mut self.ctx, &vs);
                 (o, Some(v))
             }
+            Req::MakeObject { .. } => {
+                let mut vs = Vec::new();
+                for q in &res.values {
+                    vs.push(self.value_of(*q)?);
+                }
+                let (o, v) = do_make_object(&mut self.ctx, &vs);
+                (o, Some(v))
+            }
             _ => (Out::Ok(String::new()), None),
         })
     }
@@ -518,7 +532,7 @@ pub fn judge(h: &History, run: &SharedRun, st: &mut JudgeStats) -> Option<Failur
             return Some(Failure { invariant: "R4".into(), class: format!("panic:{}", m.chars().take(50).collect::<String>()), detail: format!("request {r} {:?} panicked: {m}", op.req), op_index: r, observed: out.to_json(), expected: Json::str("no panic") });
         }
         let res = &run.resolved[r];
-        if res.noop || !matches!(op.req, Req::Load(_) | Req::Eval { .. } | Req::Top { .. } | Req::Call { .. } | Req::Manifest { .. } | Req::MakeArray { .. }) {
+        if res.noop || !matches!(op.req, Req::Load(_) | Req::Eval { .. } | Req::Top { .. } | Req::Call { .. } | Req::Manifest { .. } | Req::MakeArray { .. } | Req::MakeObject { .. }) {
             if matches!(op.req, Req::Gc) && any_abort {
                 gc_since_abort = true;
             }
